@@ -92,9 +92,12 @@ fn comp_run<C: CompObj + std::panic::RefUnwindSafe>(r: &mut Rng, t: usize, proto
             *made += 1; continue;
         }
         let se = match r.below(3) { 0 => MassSideEffect::None, 1 => MassSideEffect::Extensive, _ => MassSideEffect::Intensive };
-        let new = match r.below(6) { 0 => None, 1 => derived.or(Some(1234.5)), 2 => pre.mass.or(Some(777.0)), 3 => Some(r.lrange(10.0, 1e5).floor()), _ => Some(r.lrange(10.0, 1e5)) };
+        // 6: a mass at a graded small distance from the derived one (the setter compares exactly; the getter checks at 1e-8)
+        let new = match r.below(8) { 0 => None, 1 => derived.or(Some(1234.5)), 2 => pre.mass.or(Some(777.0)), 3 => Some(r.lrange(10.0, 1e5).floor()),
+            6 | 7 => { let d = *r.pick(&[1e-12, 1e-9, 1e-7, 1e-5, 3e-4, 1e-3, 1e-2]) * if r.chance(0.5) { 1.0 } else { -1.0 }; derived.or(pre.mass).map(|m| m * (1.0 + d)).or(Some(4321.0)) }
+            _ => Some(r.lrange(10.0, 1e5)) };
         tags.push(format!("call:set_mass({},{})", if new.is_some() { "Some" } else { "None" }, se_coq(&se)));
-        tags.push(format!("derived_vs_new:{}", match (derived, new) { (Some(d), Some(n)) => if d == n { "equal" } else { "different" }, (None, Some(_)) => "no_derived", (_, None) => "new_none" }));
+        tags.push(format!("derived_vs_new:{}", match (derived, new) { (Some(d), Some(n)) => if d == n { "equal" } else if ((d - n) / d).abs() < 2e-3 { "within_0.2_percent" } else { "different" }, (None, Some(_)) => "no_derived", (_, None) => "new_none" }));
         let res = catch(std::panic::AssertUnwindSafe(|| c.set_mass(new.map(|x| uc::KG * x), se.clone())));
         let (ret, msg) = match &res { Ok(Ok(())) => (0, String::new()), Ok(Err(e)) => (1, format!("{:#}", e)), Err(p) => (-1, p.clone()) };
         let coq = format!("x_comp_set_mass {} {} {}", comp_coq(&pre), copt_f(new), se_coq(&se));
